@@ -602,6 +602,19 @@ func c04ShutdownGuarded(out *vOut, detail string, f func(context.Context) error)
 	}
 }
 
+// ids of all items of a payload, in order
+func c04AllIds(o *oReq) string {
+	var ids []string
+	for _, r := range o.res {
+		for _, sc := range r.scopes {
+			for _, it := range sc.items {
+				ids = append(ids, c04Z(it.id))
+			}
+		}
+	}
+	return "[" + strings.Join(ids, ";") + "]"
+}
+
 func c04EndToEnd(out *vOut, g *c04Gen, traces bool) {
 	if c04E2EStuck {
 		return
@@ -640,13 +653,14 @@ func c04EndToEnd(out *vOut, g *c04Gen, traces bool) {
 		qCfg.Sizer = RequestSizerTypeBytes
 	}
 	qCfg.QueueSize = 1 << 30
-	qCfg.NumConsumers = 1 + g.r.Intn(3)
+	qCfg.NumConsumers = 1 + g.r.Pick(3, 1, 1)
 	qCfg.Batch = &BatchConfig{FlushTimeout: 10 * time.Minute, MinSize: int64(min), MaxSize: int64(max)}
 	if qCfg.Validate() != nil || qCfg.Batch.Validate() != nil {
 		out.Stat("e2e.config_rejected", 1)
 		return
 	}
 	var want, got []string
+	var reqTerms, batchTerms []string
 	ctx := context.Background()
 	set := exportertest.NewNopSettings(exportertest.NopType)
 	detail := fmt.Sprintf("signal=%s sizer=%d min=%d max=%d requests=%v", sg.name, szt, min, max, sizes)
@@ -659,14 +673,20 @@ func c04EndToEnd(out *vOut, g *c04Gen, traces bool) {
 			return
 		}
 		for _, t := range trees {
-			want = append(want, sg.obs(sg.build(t), szt).flat(true)...)
+			ob := sg.obs(sg.build(t), szt)
+			want = append(want, ob.flat(true)...)
+			if ob.size > 0 { // the memory queue ignores requests of size 0 (in the queue's unit): they never reach the batcher
+				reqTerms = append(reqTerms, c04ReqTerm(ob, false))
+			}
 			if err := exp.ConsumeTraces(ctx, c04BuildTraces(t)); err != nil {
 				out.Oracle("e2e-send", c04NoCase, detail+" err="+err.Error())
 			}
 		}
 		c04ShutdownGuarded(out, detail, exp.Shutdown)
 		for _, td := range sink.AllTraces() {
-			got = append(got, c04ObsTraces(newTracesRequest(td), szt).flat(true)...)
+			ob := c04ObsTraces(newTracesRequest(td), szt)
+			got = append(got, ob.flat(true)...)
+			batchTerms = append(batchTerms, c04AllIds(ob))
 			nb++
 		}
 	} else {
@@ -677,19 +697,31 @@ func c04EndToEnd(out *vOut, g *c04Gen, traces bool) {
 			return
 		}
 		for _, t := range trees {
-			want = append(want, sg.obs(sg.build(t), szt).flat(true)...)
+			ob := sg.obs(sg.build(t), szt)
+			want = append(want, ob.flat(true)...)
+			if ob.size > 0 { // the memory queue ignores requests of size 0 (in the queue's unit): they never reach the batcher
+				reqTerms = append(reqTerms, c04ReqTerm(ob, false))
+			}
 			if err := exp.ConsumeLogs(ctx, c04BuildLogs(t)); err != nil {
 				out.Oracle("e2e-send", c04NoCase, detail+" err="+err.Error())
 			}
 		}
 		c04ShutdownGuarded(out, detail, exp.Shutdown)
 		for _, ld := range sink.AllLogs() {
-			got = append(got, c04ObsLogs(newLogsRequest(ld), szt).flat(true)...)
+			ob := c04ObsLogs(newLogsRequest(ld), szt)
+			got = append(got, ob.flat(true)...)
+			batchTerms = append(batchTerms, c04AllIds(ob))
 			nb++
 		}
 	}
 	if !c04SameMultiset(want, got) {
 		out.Oracle("e2e-conservation", c04NoCase, fmt.Sprintf("%s sent=%d exported=%d batches=%d", detail, len(want), len(got), nb))
+	}
+	if qCfg.NumConsumers == 1 && !c04E2EStuck {
+		// one consumer: the batcher sees the requests in the order they were sent; the composed model (merge_split
+		// inside Consume, sizer = true size) must export the same set of payloads
+		out.Case(nb > 1, fmt.Sprintf("(CE2E %d %d %d %d [%s] [%s])%%Z", sg.code, szt, min, max, strings.Join(reqTerms, ";"), strings.Join(batchTerms, ";")))
+		out.Stat("e2e.model_cases", 1)
 	}
 	out.Stat("e2e.histories", 1)
 	out.Stat("e2e.batches", nb)
